@@ -9,7 +9,7 @@ Helper lemmas for C20 (property theorems are in `Qx/Props/C20.lean`).
 5. UTF-8 octet order = code point order, hence `lt8` (the collation of the C++ and of the XEP) is a strict total order;
 6. the QMap model (`buildMap`) and the key-sorted entries;
 7. reordering of the form; S as a separator-terminated token list; injectivity;
-8. where the C++ and the XEP agree (`Plain` values).
+8. the C++ string is the XEP string.
 -/
 namespace Qx.C20
 
@@ -811,7 +811,7 @@ theorem codeVals_normValue (v : Value) : (normValue v).codeVals = v.codeVals := 
   | text s => rfl
   | bool b => rfl
   | list l =>
-    simp only [normValue, Value.codeVals]
+    simp only [normValue, Value.codeVals, Value.wire]
     exact isort_of_sorted lt8_strictTotal (isort_sorted lt8_strictTotal l)
 
 theorem fieldStrCode_normField (f : Field) : fieldStrCode (normField f) = fieldStrCode f := by
@@ -883,28 +883,14 @@ def idToken (d : Identity) : Str := d.category ++ '/' :: (d.type ++ '/' :: (d.la
 theorem identityStr_eq (d : Identity) : identityStr d = sep (idToken d) := by
   simp [identityStr, sep, idToken]
 
-/-- what the C++ appends after the key: the joined values are the values themselves, except that
-no value at all still yields one (empty) token -/
-def valTokens (v : Value) : List Str :=
-  match v.codeVals with
-  | [] => [[]]
-  | l => l
-
-theorem join_sep : ∀ l : List Str, l ≠ [] → join '<' l ++ ['<'] = l.flatMap sep
-  | [], h => absurd rfl h
-  | [a], _ => by simp [join, sep]
-  | a :: b :: r, _ => by
-    have ih := join_sep (b :: r) (by simp)
-    simp only [join, flatMap_cons, sep] at ih ⊢
-    rw [← ih]; simp
+/-- what the C++ appends after the key -/
+def valTokens (v : Value) : List Str := v.codeVals
 
 def fieldTokens (f : Field) : List Str := f.key :: valTokens f.value
 
 theorem fieldStrCode_eq (f : Field) : fieldStrCode f = (fieldTokens f).flatMap sep := by
-  simp only [fieldStrCode, fieldTokens, valTokens, flatMap_cons]
-  cases h : f.value.codeVals with
-  | nil => simp [join, sep]
-  | cons a r => rw [← join_sep (a :: r) (by simp)]; simp [sep]
+  simp only [fieldStrCode, fieldTokens, valTokens, flatMap_cons, sep, append_assoc, singleton_append]
+  rfl
 
 /-- FORM_TYPE field and the remaining fields in key order, as the C++ picks them -/
 def formParts (form : Option (List Field)) : Option (Field × List Field) :=
@@ -1033,23 +1019,18 @@ theorem toStr_noChar (c : Char) (hc : c ∉ "true".toList ∧ c ∉ "false".toLi
     | [w] => exact h w (by simp [Value.strings])
     | _ :: _ :: _ => simp [Value.toStr]
 
-theorem valTokens_noChar (c : Char) (hc : c ∉ "true".toList ∧ c ∉ "false".toList) (v : Value)
+theorem valTokens_noChar (c : Char) (hc : c ≠ '1' ∧ c ≠ '0') (v : Value)
     (h : ∀ s ∈ v.strings, c ∉ s) : ∀ t ∈ valTokens v, c ∉ t := by
   intro t ht
-  simp only [valTokens] at ht
-  have hm : ∀ u ∈ v.codeVals, c ∉ u := by
-    intro u hu
-    cases v with
-    | text s => simp only [Value.codeVals, mem_singleton] at hu; subst hu; exact h _ (by simp [Value.strings])
-    | bool b =>
-      simp only [Value.codeVals, mem_singleton] at hu; subst hu
-      exact toStr_noChar c hc _ (by simp [Value.strings])
-    | list l =>
-      simp only [Value.codeVals, mem_isort] at hu
-      exact h u hu
-  cases hv : v.codeVals with
-  | nil => simp only [hv, mem_singleton] at ht; subst ht; simp
-  | cons a r => rw [hv] at ht hm; exact hm t ht
+  simp only [valTokens, Value.codeVals, mem_isort] at ht
+  cases v with
+  | text s =>
+    cases s with
+    | nil => simp [Value.wire] at ht
+    | cons a r => simp only [Value.wire, mem_singleton] at ht; subst ht; exact h _ (by simp [Value.strings])
+  | bool b =>
+    cases b <;> simp only [Value.wire, mem_singleton] at ht <;> subst ht <;> simp [hc.1, hc.2]
+  | list l => exact h t ht
 
 theorem lt_notin_bool : '<' ∉ "true".toList ∧ '<' ∉ "false".toList := by decide
 
@@ -1088,7 +1069,7 @@ theorem tokens_noLt (i : Info) (h : NoChar '<' i) : ∀ t ∈ tokens i, '<' ∉ 
         rcases ht with rfl | ⟨f, hf, rfl | ht⟩
         · exact toStr_noChar '<' lt_notin_bool _ (hfield _ hmem.1).2
         · exact (hfield f (hmem.2 f hf)).1
-        · exact valTokens_noChar '<' lt_notin_bool _ (hfield f (hmem.2 f hf)).2 t ht
+        · exact valTokens_noChar '<' (by decide) _ (hfield f (hmem.2 f hf)).2 t ht
 
 /-- under "no `<` in any component", S determines its token list -/
 theorem tokens_eq_of_verString_eq {a b : Info} (ha : NoChar '<' a) (hb : NoChar '<' b)
@@ -1223,53 +1204,26 @@ theorem canon_eq_of_tokens_eq {a b : Info} (hsa : NoSlash a) (hsb : NoSlash b)
 
 /-! ## 8. where the C++ and the XEP agree -/
 
-/-- a field value that the C++ hashes exactly as it is written to the wire: a non-empty string or a
-non-empty string list (not a boolean, not a value-less field) -/
-def Value.Plain : Value → Prop
-  | .text s => s ≠ []
-  | .list l => l ≠ []
-  | .bool _ => False
+/-- every field is hashed as the XEP says: `var<` and the written values, sorted, each followed by `<` -/
+theorem fieldStr_agree (f : Field) : fieldStrCode f = fieldStrSpec f := rfl
 
-def PlainForm : Option (List Field) → Prop
-  | none => True
-  | some fs => ∀ f ∈ fs, f.value.Plain
-
-theorem wire_text_ne_nil {s : Str} (h : s ≠ []) : (Value.text s).wire = [s] := by
-  cases s with
-  | nil => exact absurd rfl h
-  | cons _ _ => rfl
-
-/-- a plain field is hashed as the XEP says -/
-theorem fieldStr_agree {f : Field} (hp : f.value.Plain) : fieldStrCode f = fieldStrSpec f := by
-  simp only [fieldStrCode, fieldStrSpec]
-  congr 2
-  cases hv : f.value with
-  | bool b => rw [hv] at hp; exact absurd hp (by simp [Value.Plain])
-  | text s =>
-    rw [hv] at hp
-    simp only [Value.Plain] at hp
-    simp [Value.codeVals, wire_text_ne_nil hp, join, isort, insertBy]
-  | list l =>
-    rw [hv] at hp
-    simp only [Value.Plain] at hp
-    simp only [Value.codeVals, Value.wire]
-    rw [join_sep _ (fun e => hp ((isort_eq_nil _ _).mp e))]
-    rfl
-
-theorem toStr_eq_wire {v : Value} (hp : v.Plain) {w : Str} (hw : v.wire = [w]) : v.toStr = v.wire.flatten := by
+/-- a string FORM_TYPE field with one written value: `QVariant::toString()` is that value -/
+theorem toStr_eq_wire {v : Value} (hb : ∀ b, v ≠ .bool b) {w : Str} (hw : v.wire = [w]) : v.toStr = v.wire.flatten := by
   cases v with
-  | bool b => exact absurd hp (by simp [Value.Plain])
-  | text s => simp only [Value.Plain] at hp; simp [Value.toStr, wire_text_ne_nil hp]
+  | bool b => exact absurd rfl (hb b)
+  | text s =>
+    cases s with
+    | nil => simp [Value.wire] at hw
+    | cons a r => simp [Value.toStr, Value.wire]
   | list l => simp only [Value.wire] at hw; subst hw; simp [Value.toStr, Value.wire]
 
-/-- the form part: QMap with last-wins/`toString`/`join` against the XEP's steps 6–7 -/
-theorem formStr_agree {form : Option (List Field)} (hx : XepForm form) (hp : PlainForm form) :
+/-- the form part: QMap with last-wins/`toString` against the XEP's steps 6–7 -/
+theorem formStr_agree {form : Option (List Field)} (hx : XepForm form) :
     formStrCode form = formStrSpec form := by
   cases form with
   | none => rfl
   | some fs =>
     simp only [XepForm] at hx
-    simp only [PlainForm] at hp
     simp only [formStrCode, formStrSpec]
     rw [buildMap_find fs hx.1, buildMap_filter fs hx.1]
     cases hft : fs.find? (fun f => decide (f.key = formTypeKey)) with
@@ -1277,13 +1231,10 @@ theorem formStr_agree {form : Option (List Field)} (hx : XepForm form) (hp : Pla
     | some ft =>
       have hm : ft ∈ fs := mem_of_find?_eq_some hft
       have hk : ft.key = formTypeKey := by simpa using find?_some hft
-      obtain ⟨w, hw⟩ := hx.2 ft hm hk
+      obtain ⟨⟨w, hw⟩, hb⟩ := hx.2 ft hm hk
       simp only
-      rw [toStr_eq_wire (hp ft hm) hw]
-      congr 2
-      apply flatMap_congr'
-      intro f hf
-      exact fieldStr_agree (hp f (mem_filter.mp ((mem_isort _ _ f).mp hf)).1)
+      rw [toStr_eq_wire hb hw]
+      rfl
 
 theorem isPrefixOf_self_append : ∀ (p r : Str), p.isPrefixOf (p ++ r) = true
   | [], _ => by simp [isPrefixOf]
@@ -1296,12 +1247,4 @@ instance (i : Info) : Decidable (NoSlash i) := by unfold NoSlash; infer_instance
 instance : (f : Option (List Field)) → Decidable (DistinctKeys f)
   | none => isTrue trivial
   | some fs => inferInstanceAs (Decidable (fs.map Field.key).Nodup)
-instance : (v : Value) → Decidable v.Plain
-  | .text s => inferInstanceAs (Decidable (s ≠ []))
-  | .list l => inferInstanceAs (Decidable (l ≠ []))
-  | .bool _ => isFalse (fun h => h)
-instance : (f : Option (List Field)) → Decidable (PlainForm f)
-  | none => isTrue trivial
-  | some fs => inferInstanceAs (Decidable (∀ f ∈ fs, f.value.Plain))
-
 end Qx.C20
